@@ -317,4 +317,7 @@ def _r164(ck, prog, cfg):
                 ck.check(not missing or (len(missing) == 1 and True) or else_unreach, "R16.4", "%s:resp-variants%s" % (f.short, _tag(cfg)),
                          "RESP->Lua conversion has no explicit arm for %s" % missing, f.where(t["ln"]), detail="arms for %s" % sorted(listed))
                 break
+    if cfg == "nodefault" and n == 0 and not any("mlua::" in (t.get("fn") or "") for f in prog.lib_fns() if f.file == "src/redis/executor/script_ops.rs" for _, t in f.calls()):
+        ck.ok("R16.4", "lua-not-compiled" + _tag(cfg), "the `lua` feature is off in this configuration: no conversion tables exist")
+        return
     ck.floor("R16.4" + _tag(cfg), n, 1)
